@@ -45,9 +45,9 @@ def rows_of(out):
 
 
 def panel_for(entry, n, seed):
-    ncol = 2 if entry["name"].startswith("column_ensemble") else 1
+    ncol = E.ncol(entry)
     noisy = entry["kind"] in ("classifier", "regressor")
-    X, y = E.make_panel(n, ncol, entry.get("tp", 12), seed, noise=2.0 if noisy else 0.5)
+    X, y = E.make_panel(n, ncol, entry.get("tp", 12), seed, noise=2.0 if noisy else 0.5, unequal=bool(entry.get("unequal")))
     return X, y
 
 
@@ -61,9 +61,10 @@ class Fitted:
     def get(self, fitc):
         if fitc not in self.cache:
             # 9 training instances: deliberately different from the number of time points
-            Xtr, ytr = E.make_panel(9, 2 if self.entry["name"].startswith("column_ensemble") else 1, self.entry.get("tp", 12),
+            Xtr, ytr = E.make_panel(9, E.ncol(self.entry), self.entry.get("tp", 12),
                                     self.seed + 500,
-                                    noise=2.0 if self.entry["kind"] in ("classifier", "regressor") else 0.5)
+                                    noise=2.0 if self.entry["kind"] in ("classifier", "regressor") else 0.5,
+                                    unequal=bool(self.entry.get("unequal")))
             est = self.entry["factory"]()
             yy = np.asarray(ytr, dtype=float) if self.entry["kind"] == "regressor" else ytr
             import joblib
@@ -109,7 +110,12 @@ def run(ctx):
                     Xb, _ = panel_for(entry, n, ctx.seed + ei)
                     base_cache[n] = (Xb, apply(fitted.get("nested"), entry, Xb))
                 Xb, base = base_cache[n]
-                Xt = Xb.iloc[[s - 1 for s in t["src"]]].reset_index(drop=True)
+                if entry.get("unequal"):      # unequal-length panels only exist as nested frames
+                    t = dict(t, fitc="nested", applyc="nested")
+                t = dict(t, keep=bool(len(recs) % 2))      # every other selection keeps its row labels, as X.iloc[...] leaves them
+                Xt = Xb.iloc[[s - 1 for s in t["src"]]]
+                if not t["keep"]:
+                    Xt = Xt.reset_index(drop=True)
                 rows = apply(fitted.get(t["fitc"]), entry, to_container(Xt, t["applyc"]))
             except Exception as e:
                 import traceback
@@ -128,7 +134,7 @@ def run(ctx):
     ctx.traces += len(recs) - len(rejects)
     for rec in recs:
         if rec["tid"] in rejects:
-            t = {k: rec["cfg"][k] for k in ("n", "src", "fitc", "applyc")}
+            t = {k: rec["cfg"][k] for k in ("n", "src", "fitc", "applyc", "keep")}
             ctx.violation({"estimator": rec["estimator"], "transformation": t},
                           "TLC rejects %s under input transformation %s: %s" % (rec["estimator"], t, rejects[rec["tid"]]))
     return ctx.finish(
@@ -150,7 +156,9 @@ def replay(ctx, doc):
     fitted = Fitted(entry, ctx.seed + ei)
     Xb, _ = panel_for(entry, t["n"], ctx.seed + ei)
     base = apply(fitted.get("nested"), entry, Xb)
-    Xt = Xb.iloc[[s - 1 for s in t["src"]]].reset_index(drop=True)
+    Xt = Xb.iloc[[s - 1 for s in t["src"]]]
+    if not t.get("keep"):
+        Xt = Xt.reset_index(drop=True)
     rows = apply(fitted.get(t["fitc"]), entry, to_container(Xt, t["applyc"]))
     rejects, _ = ctx.judge("TracePanelRows", "TracePanelRows.cfg", [{"tid": 0, "cfg": dict(t, base=base), "obs": {"rows": rows}}])
     print("base", base, "rows", rows)
